@@ -184,12 +184,33 @@ def r_kp_slice(cx):
         import re
         m = re.search(r"\[[^;\]]+; (\d+)\]", full)
         size = int(m.group(1)) if m else None
-        ok = size is not None and _upper_bounded(f, bb, start, size)
+        ok = size is not None and (_upper_bounded(f, bb, start, size) or _min_with_own_len(start, args[0], size))
         cx.ob("R-KP-SLICE", "main/slice%d" % n, ok,
               "the tail slice of the %s-element default row starts at a value known to be <= %s" % (size, size) if ok else
               "kp::main slices the %s-element default row from `%s`, which exceeds its length for input lines with more "
               "columns: the program panics" % (size, mir.show(start, maxd=3)), cx.where(t["span"]))
     cx.count("R-KP-SLICE", "range_from_sites", n)
+
+
+def _min_with_own_len(start, sliced, size):
+    """start = min(x, ARRAY.len()) where ARRAY is the array being sliced (or its length as a constant)"""
+    v0 = mir.strip_refs(start)
+    if not (v0[0] == "call" and isinstance(v0[1], str) and v0[1].endswith("::min")):
+        return False
+    S = mir.strip_refs(sliced)
+    for a in v0[2]:
+        a = mir.strip_refs(a)
+        if a[0] == "call" and isinstance(a[1], str) and a[1].rsplit("::", 1)[-1] == "len" and a[2]:
+            x = mir.strip_refs(a[2][0])
+            while x[0] == "cast":
+                x = mir.strip_refs(x[2])
+            if x == S:
+                return True
+        if a[0] == "un" and a[1] == "PtrMetadata" and mir.strip_refs(a[2]) == S:
+            return True
+        if a[0] == "const" and isinstance(a[2], int) and a[2] <= size:
+            return True
+    return False
 
 
 def _upper_bounded(f, bb, val, bound):
@@ -425,6 +446,16 @@ def r_kp_defaults(cx):
             vals = [str_of(o) for o in v[2]]
             if all(x is not None for x in vals) and len(vals) >= 4 and "NaN" in vals:
                 rows.append(vals)
+    if not rows:
+        # ... or a named constant array of string literals
+        import consts
+        for cname in sorted(cx.f.kp.get("consts", {})):
+            try:
+                cv = consts.const_value(cx.f, cname, "kp")
+            except Exception:
+                cv = None
+            if isinstance(cv, (list, tuple)) and len(cv) >= 4 and all(isinstance(x, str) for x in cv) and "NaN" in cv:
+                rows.append(list(cv))
     ok = len(rows) == 1 and rows[0][2] == "0" and rows[0][3] == "NaN"
     cx.ob("R-KP-DEFAULTS", "default-row", ok,
           "missing columns default to %s (height 0, time NaN)" % rows[0] if ok else
